@@ -34,8 +34,8 @@ func (w WorkCapTrip) Error() string { return "verifrt: work cap exceeded" }
 var (
 	// plain mode (baton active or single goroutine): non-atomic counters,
 	// one per task (index cur+1; 0 = driver)
-	meters  = make([]uint64, 1)
-	caps    = make([]uint64, 1)
+	meters  [maxIDs + 1]uint64
+	caps    [maxIDs + 1]uint64
 	tripped bool
 	// shared mode (World C: real goroutines between synctest.Wait barriers)
 	shared        bool
@@ -83,7 +83,7 @@ func ResetMeter(cap uint64) {
 
 //go:norace
 func meterIdx() int {
-	if schedActive && cur+1 < len(meters) {
+	if schedActive && cur >= 0 && cur < maxIDs {
 		return cur + 1
 	}
 	return 0
@@ -107,6 +107,27 @@ func Tripped() bool {
 		return sharedTripped.Load()
 	}
 	return tripped
+}
+
+// gcAt: in plain mode the k-th instrumented statement after the last
+// ResetMeter runs a garbage collection (and lets the finalizer goroutine run):
+// the "GC / finalizer at an arbitrary point inside a call" fault.
+var gcAt uint64
+var GCsInjected uint64
+
+// SetGCAt arms (k > 0) or disarms the fault for the current task / driver.
+//
+//go:norace
+func SetGCAt(k uint64) { gcAt = k }
+
+//go:norace
+func injectGC() {
+	gcAt = 0
+	GCsInjected++
+	runtime.GC()
+	for i := 0; i < 4; i++ {
+		runtime.Gosched() // finalizers run on their own goroutine
+	}
 }
 
 // Yield is called in front of every instrumented statement.
@@ -133,11 +154,15 @@ func Yield(site int) {
 	}
 	i := meterIdx()
 	meters[i]++
+	if gcAt != 0 && meters[i] == gcAt {
+		injectGC()
+	}
 	if caps[i] != 0 && meters[i] > caps[i] && (meters[i]-caps[i])%4096 == 1 {
 		tripped = true
 		panic(WorkCapTrip{meters[i]})
 	}
 	if schedActive {
+		spinStreak = 0
 		schedPoint(site)
 	}
 }
@@ -149,12 +174,28 @@ func Yield(site int) {
 
 const mainTask = -1
 
+// Task ids: the callers the harness starts are 0..nTasks-1; goroutines the code
+// under test starts itself (verifrt.Go) get ids from spawnBase upwards. Started
+// goroutines outlive the run that started them: one that is still alive when
+// all callers have returned (a worker nobody waited for, a background service
+// loop) stays parked, keeps its id and is scheduled again in the next run of
+// this process - exactly as a real goroutine would still be there for the next
+// call. All state is in fixed arrays (no reallocation while tasks run).
+const (
+	spawnBase  = 1024
+	maxSpawned = 4096
+	maxIDs     = spawnBase + maxSpawned
+)
+
 var (
 	schedActive bool
 	cur         int // task holding the baton (mainTask = driver)
-	nTasks      int
-	alive       []bool
+	nTasks      int // callers of this run
+	spawnHigh   int // spawn slots used so far in this process
+	alive       [maxIDs]bool
 	nAlive      int
+	nAliveBase  int
+	rootOf      [maxIDs]int32 // the caller on whose behalf a task runs (-1: started in an earlier run)
 
 	swAfter   []uint16 // run-length schedule: switch after swAfter[i] more ordinary yields ...
 	swTo      []uint16 // ... to the swTo[i]-th other alive task
@@ -170,12 +211,42 @@ var (
 	Decisions         uint64
 	traceHash         uint64 // FNV-1a over (from,to,site) of every hand-over
 	traceOn           bool
-	Trace             []int32 // optional full decision trace: site, from, to triples
-	curCall           []int32 // per task: index of the call currently executing (set by harness)
-	inPoolCrit        []int8  // per task: between Pool.Get and Pool.Put
+	Trace             []int32       // optional full decision trace: site, from, to triples
+	curCall           [maxIDs]int32 // per task: index of the call currently executing (set by harness)
+	inPoolCrit        [maxIDs]int8  // per task: between Pool.Get and Pool.Put
 	ProbeSwitchInCrit uint64
 	ProbeTwoInCrit    uint64
+
+	Spawned     uint64 // goroutines the code under test started during this run
+	CarriedOver uint64 // started goroutines still alive from earlier runs when this run began
+	LeftWaiting uint64 // started goroutines still alive (waiting) when this run ended
+	freeIDs     [maxSpawned]int
+	nFree       int
 )
+
+var (
+	starve   = -1
+	starveAt uint64
+	starved  bool
+	Starved  uint64 // runs in which the stalled-caller fault fired
+)
+
+// nextID enumerates task ids in scheduling order: callers, then started goroutines.
+//
+//go:norace
+func nextID(i int) int {
+	i++
+	if i < nTasks {
+		return i
+	}
+	if i < spawnBase {
+		i = spawnBase
+	}
+	if i < spawnBase+spawnHigh {
+		return i
+	}
+	return -1
+}
 
 // SchedConfig is the pre-drawn schedule of one run.
 type SchedConfig struct {
@@ -186,40 +257,66 @@ type SchedConfig struct {
 	HotSites  []int
 	HotReader bool // the scheduling point after each chunk of the random reader (site -2) is hot
 	Trace     bool
+	// Stalled caller ("slow node"): task Starve-1 is descheduled at the StarveAt-th
+	// statement of a call and is not chosen again while any other task can run
+	// (a task waiting for a lock it holds still reaches it). 0 = none.
+	Starve   int
+	StarveAt uint64
 }
 
 // SchedStart arms the scheduler; the caller (driver) holds the baton.
 //
 //go:norace
 func SchedStart(c SchedConfig) {
-	nTasks = c.Tasks
-	meters = make([]uint64, c.Tasks+1)
-	caps = make([]uint64, c.Tasks+1)
-	alive = make([]bool, c.Tasks)
-	for i := range alive {
-		alive[i] = true
+	if c.Tasks > spawnBase {
+		panic("verifrt: too many caller tasks")
 	}
+	nTasks = c.Tasks
+	for i := 0; i < spawnBase; i++ {
+		alive[i] = i < c.Tasks
+		rootOf[i] = int32(i)
+		meters[i+1], caps[i+1] = 0, 0
+		curCall[i], inPoolCrit[i] = -1, 0
+		if blockedOn[i] != 0 {
+			blockedOn[i] = 0
+			nBlocked--
+		}
+	}
+	meters[0], caps[0] = 0, 0
+	nAliveBase = c.Tasks
 	nAlive = c.Tasks
+	CarriedOver = 0
+	for i := spawnBase; i < spawnBase+spawnHigh; i++ {
+		if alive[i] {
+			nAlive++
+			CarriedOver++
+			rootOf[i] = -1
+			curCall[i], inPoolCrit[i] = -1, 0
+			meters[i+1] = 0
+		}
+	}
 	swAfter, swTo, swPos = c.After, c.To, 0
 	countdown = -1
 	if len(swAfter) > 0 {
 		countdown = int(swAfter[0])
 	}
 	hotDec, hotPos = c.Hot, 0
-	hotSite = make([]bool, len(Sites)+1)
+	if len(hotSite) != len(Sites)+1 {
+		hotSite = make([]bool, len(Sites)+1)
+	}
+	for i := range hotSite {
+		hotSite[i] = false
+	}
 	for _, s := range c.HotSites {
 		if s >= 0 && s < len(hotSite) {
 			hotSite[s] = true
 		}
 	}
 	hotReader = c.HotReader
-	inPoolCrit = make([]int8, c.Tasks)
-	curCall = make([]int32, c.Tasks)
-	for i := range curCall {
-		curCall[i] = -1
-	}
+	starve, starveAt, starved = c.Starve-1, c.StarveAt, false
 	Switches, Decisions, traceHash = 0, 0, 14695981039346656037
 	ProbeSwitchInCrit, ProbeTwoInCrit = 0, 0
+	Spawned, LeftWaiting, spinStreak = 0, 0, 0
 	traceOn = c.Trace
 	Trace = Trace[:0]
 	cur = mainTask
@@ -280,16 +377,21 @@ func nextDecision(site int) uint16 {
 //
 //go:norace
 func pickOther(me int, d uint16) int {
-	n := nAlive
-	if me >= 0 && alive[me] {
+	n := nAlive - nBlocked
+	if me >= 0 && alive[me] && blockedOn[me] == 0 {
 		n--
 	}
 	if n <= 0 {
 		return -2
 	}
+	skip := -1
+	if starved && starve >= 0 && starve != me && alive[starve] && blockedOn[starve] == 0 && n > 1 {
+		skip = starve
+		n--
+	}
 	k := int(d-1) % n
-	for i := 0; i < nTasks; i++ {
-		if i == me || !alive[i] {
+	for i := nextID(-1); i >= 0; i = nextID(i) {
+		if i == me || i == skip || !alive[i] || blockedOn[i] != 0 {
 			continue
 		}
 		if k == 0 {
@@ -307,9 +409,9 @@ func handOver(me, to, site int) {
 	if traceOn {
 		traceAdd(int32(site), int32(me), int32(to))
 	}
-	if me >= 0 && inPoolCrit[me] > 0 {
+	if me >= 0 && me < maxIDs && inPoolCrit[me] > 0 {
 		ProbeSwitchInCrit++
-		if to >= 0 && inPoolCrit[to] > 0 {
+		if to >= 0 && to < maxIDs && inPoolCrit[to] > 0 {
 			ProbeTwoInCrit++
 		}
 	}
@@ -332,8 +434,21 @@ func traceAdd(a, b, c int32) {
 
 //go:norace
 func waitBaton(me int) {
-	for cur != me {
+	spins := 0
+	for cur != me || !schedActive {
+		if !schedActive && me >= spawnBase {
+			// a started goroutine parked between two runs: do not compete with the driver
+			time.Sleep(20 * time.Microsecond)
+			continue
+		}
 		runtime.Gosched()
+		spins++
+		if spins > 200_000_000 {
+			// nobody has passed the baton for minutes of spinning: the holder is blocked
+			// on something the scheduler does not own (a channel, WaitGroup or Cond in
+			// the code under test). Reported as infrastructure trouble, never as a pass.
+			panic("verifrt: baton holder is blocked outside the simulated scheduler (unsupported blocking primitive in the code under test)")
+		}
 	}
 }
 
@@ -342,6 +457,15 @@ func schedPoint(site int) {
 	me := cur
 	if me == mainTask {
 		return // driver code (reference calls) is not scheduled
+	}
+	if me == starve && !starved && site >= 0 && meters[me+1] >= starveAt {
+		if to := pickOther(me, 1); to >= 0 {
+			starved = true
+			Starved++
+			handOver(me, to, -14)
+			waitBaton(me)
+			return
+		}
 	}
 	d := nextDecision(site)
 	if d == 0 {
@@ -361,6 +485,7 @@ func schedPoint(site int) {
 //go:norace
 func SchedPoint(site int) {
 	if schedActive {
+		spinStreak = 0 // an explicit point is passed after a simulated primitive made progress
 		schedPoint(site)
 	}
 }
@@ -376,9 +501,18 @@ func TaskBegin(id int) { waitBaton(id) }
 func TaskEnd(id int) {
 	alive[id] = false
 	nAlive--
+	if id < spawnBase {
+		nAliveBase--
+	} else {
+		freeIDs[nFree] = id
+		nFree++
+	}
 	d := nextDecision(-100)
 	to := pickOther(id, d+1)
 	if to < 0 {
+		if nAliveBase > 0 {
+			panic("verifrt: deadlock - the remaining callers are parked on channels nobody will serve")
+		}
 		to = mainTask
 	}
 	handOver(id, to, -100)
@@ -396,7 +530,37 @@ func SchedRun(first int) {
 		first = 0
 	}
 	handOver(mainTask, first, -101)
-	waitBaton(mainTask)
+	for cur != mainTask {
+		runtime.Gosched()
+	}
+	for i := spawnBase; i < spawnBase+spawnHigh; i++ {
+		if alive[i] {
+			LeftWaiting++
+		}
+	}
+}
+
+// RunAlone runs f as the only caller task of a run without forced switches:
+// what the driver uses for "called alone" when the code under test has
+// goroutines of its own (they, and those parked from earlier runs, still run
+// whenever f waits for them). A panic of f is re-raised in the caller.
+func RunAlone(f func()) {
+	SchedStart(SchedConfig{Tasks: 1})
+	done := make(chan struct{})
+	var pv any
+	go func() {
+		defer close(done)
+		TaskBegin(0)
+		defer TaskEnd(0)
+		defer func() { pv = recover() }()
+		f()
+	}()
+	SchedRun(0)
+	SchedStop()
+	<-done
+	if pv != nil {
+		panic(pv)
+	}
 }
 
 // CurTask returns the task that holds the baton (mainTask = -1 for the driver).
